@@ -511,6 +511,10 @@ def run(prog: Program, rep: Report, tier: str) -> None:
     c19.main_loop_analysis(prog, sub, "R07.5")
     c19.step_word_analysis(prog, sub, "R07.5")
     rep.obligations.extend(sub.obligations)
+    from ..share import share
+
+    share(prog, rep, "C06", ("R06.6",), "R07.6", "dense layout: every record is written at its own row of the current file (split files concatenate to the unsplit run)", 3)
+
 
 
 from ..selftest import Mut  # noqa: E402
